@@ -251,7 +251,11 @@ def build(ck):
         S.assume(nside >= 1)
         npix = 12 * nside * nside
         S.assume(z3.And(npix != 2 ** 31, npix <= 2 ** 63 - 1))      # 12 nside^2 = 2^31 is impossible (3 does not divide 2^31)
-        o = S.new('HealpixLandscape', shape=(npix,), pixel_shape=(npix,), stokes='IQU', dtype=Ext('numpy.float64'), nside=nside)
+        # the landscape's dtype is the dtype of the map values; the pointing angles are float64 whatever it is
+        dts = ['numpy.float64', 'numpy.float32', 'numpy.float16', 'numpy.int32']
+        dt = dts[S.choose(len(dts))]
+        S.inputs['landscape_dtype'] = dt
+        o = S.new('HealpixLandscape', shape=(npix,), pixel_shape=(npix,), stokes='IQU', dtype=Ext(dt), nside=nside)
         theta, phi = S.real('theta'), S.real('phi')
         pt, pp = PX.PtV(theta, Ext('numpy.float64')), PX.PtV(phi, Ext('numpy.float64'))
         w = S.call(S.I.getattr(o, 'world2pixel'), [pt, pp])
